@@ -10,6 +10,7 @@ mod c25;
 mod generic;
 mod model;
 mod render;
+mod shortread;
 mod watch;
 mod zf;
 
